@@ -579,7 +579,7 @@ def run(ctx):
     for v in ctx.violations[before:]:
       if v.rule == old:
         v.rule = new
-
+  shared.rule_fixed_range_pipeline(ctx, 'C01.R19')
 
 def r10_grouping_table(ctx, R='C01.R10'):
   """Horizontal grouping of consumers: a partition by (previous group, equal
